@@ -3,6 +3,7 @@ CHILD_SA, all interleavings of local triggers at both endpoints with the deliver
 everything in flight (DESIGN.md section 3, C09)."""
 from . import scenarios as S
 from . import protocol as P
+from .continuous import ContinuousWorld
 from .explorer import Explorer
 from .world import State, HarnessError, REQ_SENT_STATES
 
@@ -53,12 +54,13 @@ def _v6_outer_confs():
     return c
 
 
-def build(params):
+def build(params, cls=None):
+    """cls=harness.continuous.ContinuousWorld: the same initial world with the event loops never left (not copyable)"""
     confs = CONFIGS[params['config']]()
     if params.get('start') == 'double':
         # both peers initiated at the same time: every endpoint holds two IKE_SAs for the one connection (one as
         # initiator, one as responder), each with one CHILD_SA
-        w = S.new_world(confs, ADDRS.get(params['config']))
+        w = S.new_world(confs, ADDRS.get(params['config']), cls=cls)
         w.step(('acquire', 'A', 0, 0))
         w.step(('acquire', 'B', 0, 0))
         w.deliver_all()
@@ -68,7 +70,7 @@ def build(params):
         w.history = []
         P.set_budget(w, **params['budget'])
         return w
-    w = S.established(confs, initiator=params.get('initiator', 'A'), addrs=ADDRS.get(params['config']))
+    w = S.established(confs, initiator=params.get('initiator', 'A'), addrs=ADDRS.get(params['config']), cls=cls)
     P.set_budget(w, **params['budget'])
     return w
 
@@ -137,7 +139,8 @@ def explore(params, monitors, state_monitors=(), quick=True, max_states=None, jo
     ex = Explorer(lambda: build(params), enabled_for(params), P.apply_event, monitors=monitors,
                   state_monitors=state_monitors, extra_fn=P.budget_key,
                   abstraction_checks=20 if quick else 60, replay_every=100 if quick else 500,
-                  max_states=max_states, label=label(params), cover=COVER)
+                  max_states=max_states, label=label(params), cover=COVER,
+                  continuous_init_fn=lambda: build(params, cls=ContinuousWorld))
     if jobs and jobs > 1:
         from .explorer import run_parallel
         run_parallel(ex, jobs)        # level-synchronous parallel BFS (thorough tiers)
